@@ -131,6 +131,15 @@ func isBuiltinLabel(s string) bool {
 // expectedContainerLabels is the model of which labels a container carries.
 // ok=false if two Docker label keys collide after sanitising (or with a built-in name).
 func expectedContainerLabels(c CSpec) (map[string]string, bool) {
+	m, keyClash, builtinClash := expectedContainerLabels3(c)
+	return m, !keyClash && !builtinClash
+}
+
+// expectedContainerLabels3 tells the two kinds of collision apart: two Docker keys of one container
+// with the same sanitised name (which one survives is not stated anywhere), and a Docker key whose
+// sanitised name is a built-in container label (C20: the container must be addressable by the
+// Docker label's value under that name, so the Docker label is what the name reads).
+func expectedContainerLabels3(c CSpec) (map[string]string, bool, bool) {
 	name := strings.TrimPrefix(c.Name, "/")
 	m := map[string]string{
 		"container": name, "container_id": c.ID, "container_name": name, "container_image": c.Image,
@@ -139,7 +148,7 @@ func expectedContainerLabels(c CSpec) (map[string]string, bool) {
 		"container_image_id": "sha256:" + c.Image, "container_command": "/bin/" + c.Image,
 		"container_created": "1700000000", "container_status": "Up 1 hour",
 	}
-	ok := true
+	keyClash, builtinClash := false, false
 	seen := map[string]bool{}
 	keys := make([]string, 0, len(c.Labels))
 	for k := range c.Labels {
@@ -148,13 +157,16 @@ func expectedContainerLabels(c CSpec) (map[string]string, bool) {
 	sort.Strings(keys)
 	for _, k := range keys {
 		_, sk := modelSanitise(k)
-		if seen[sk] || isBuiltinLabel(sk) {
-			ok = false
+		if seen[sk] {
+			keyClash = true
+		}
+		if isBuiltinLabel(sk) {
+			builtinClash = true
 		}
 		seen[sk] = true
 		m[sk] = c.Labels[k]
 	}
-	return m, ok
+	return m, keyClash, builtinClash
 }
 
 func quoteLogQL(s string) string {
